@@ -85,6 +85,7 @@ type envB struct {
 	failWhileBusy int
 	cands         []candidate
 	closeErrs     []string
+	finished      bool
 }
 
 func (e *envB) hasIndex() bool {
@@ -174,6 +175,9 @@ func (e *envB) callback(i int) func(kind types.CallbackKind, instance string, st
 func (e *envB) observe(i int, what string, tagWritten bool) {
 	e.mu.Lock()
 	defer e.mu.Unlock()
+	if e.finished {
+		return
+	}
 	k := e.reqs
 	e.reqs++
 	cs := e.copies[i]
@@ -360,12 +364,19 @@ func checkB(cs Case, ev *evid.Collector) *evid.Violation {
 		classes = append(classes, "graph:"+l)
 	}
 	if watchdog || e.m.CapHit() {
+		if e.mu.TryLock() {
+			e.finished = true
+			e.mu.Unlock()
+		}
 		classes = append(classes, "B:watchdog-or-cap")
 		ev.Case(false, "", classes...)
 		return nil
 	}
+	// From here on events are ignored: a goroutine left behind by a failed copy (sigStray) must neither change what is
+	// judged below nor block on the harness lock while it holds a write slot of the layout.
 	e.mu.Lock()
-	defer e.mu.Unlock()
+	e.finished = true
+	e.mu.Unlock()
 	nOK, nFail := 0, 0
 	for _, s := range e.copies {
 		if s.done && s.err == nil {
@@ -451,7 +462,9 @@ func checkB(cs Case, ev *evid.Collector) *evid.Violation {
 	}
 	// everybody is done: push an unreferenced blob through the client (so that a collection certainly is due:
 	// modified + no copy in flight), a final Close, then the end-state clauses
-	_, perr := e.rc.BlobPut(ctx, e.closeRef, descriptor.Descriptor{Digest: digest.Digest(rm.Digest("sha256", sentinel)), Size: int64(len(sentinel))}, bytes.NewReader(sentinel))
+	pctx, pcancel := context.WithTimeout(ctx, 30*time.Second)
+	_, perr := e.rc.BlobPut(pctx, e.closeRef, descriptor.Descriptor{Digest: digest.Digest(rm.Digest("sha256", sentinel)), Size: int64(len(sentinel))}, bytes.NewReader(sentinel))
+	pcancel()
 	beforeFinal := takeSnap(e.tgt)
 	rb := reach(e.tgt)
 	rb.resolveEdges()
